@@ -479,6 +479,7 @@ fn gen_case(rng: &mut Rng, id: usize, tier: &str) -> String {
     };
     let wild_inf = rng.chance(60, 100);
     let inf_elsewhere = rng.chance(25, 100);
+    let special = rng.chance(3, 100);
     let mut rows: Vec<String> = vec![];
     for _ in 0..m {
         let mut row = String::new();
@@ -489,6 +490,11 @@ fn gen_case(rng: &mut Rng, id: usize, tier: &str) -> String {
             }
             if (s == k - 1 && wild_inf) || (inf_elsewhere && rng.chance(3, 100)) {
                 v = NEG_INF;
+            }
+            // outside the property's quantifier (nothing is claimed about the values), but the
+            // pipelines must still agree with the model bit for bit: +inf and NaN cells
+            if special && rng.chance(4, 100) {
+                v = if rng.chance(1, 2) { 0x7f80_0000 } else { 0x7fc0_0000 };
             }
             row.push_str(&format!("{:08x}", v));
         }
